@@ -60,8 +60,9 @@ def bisect(
     """
     lower, upper = map(torch.as_tensor, (lower, upper))
 
-    if not (lower < upper).all():
-        raise ValueError("condition lower < upper should be satisfied.")
+    # lower == upper is a valid (degenerate) bracket: the root is that point
+    if not (lower <= upper).all():
+        raise ValueError("condition lower <= upper should be satisfied.")
 
     if (fn(lower) > fn(upper)).all():
         # If fn is a decreasing function
